@@ -845,6 +845,13 @@ func TestVerif_C08_Sign(t *testing.T) {
 			keys := make([]*big.Int, len(p.Sorted))
 			for i, k := range p.Sorted {
 				keys[i], _ = new(big.Int).SetString(k, 10)
+				if p.SortedBack[i] < 1 || p.SortedBack[i] > n || c08Rel1(k, seed) != p.SortedBack[i] {
+					rep.Diverge(key+":keygen", fmt.Sprintf("key generation member %d: party %s of its context maps back to member %d", m, k, p.SortedBack[i]), r.X, c08Rel1(k, seed), p.SortedBack[i])
+					bad = true
+				}
+			}
+			if bad {
+				break
 			}
 			results[m] = &dkg.Result{Group: p.Group, PrivateKeyShare: c08Share(fix, keys, p.SortedBack, p.OwnIndex)}
 		}
